@@ -212,6 +212,46 @@ def sorted_cases(chain):
     return sorted(chain["cases"], key=lambda c: json.dumps(c["inp"], sort_keys=True))
 
 
+SPAWNING = ("join_spawn", "try_join_spawn", "spawn", "try_spawn")
+
+
+def simple_expr(chain, variant, mchain):
+    """expression whose value is the chain's value, evaluated by macro `variant`"""
+    if variant in ("join", "try_join"):
+        return f"{variant}! {{ x {mchain} }}"
+    if variant.startswith("try_"):   # two-branch try variant: the transposed result, projected back on branch 0
+        other = "rt::sem::alt_ok9()" if chain["ty"] == "RI" else "rt::sem::alt9()"
+        return f"{variant}! {{ x {mchain}, {other} }}.map(|p| p.0)"
+    return f"{variant}! {{ x {mchain}, rt::sem::alt9() }}.0"
+
+
+def nest_expr(outer, pos, inner_expr):
+    """`inner_expr` evaluated inside macro `outer` at position pos: operand closure body / capture block / handler"""
+    t = outer.startswith("try_")
+    if pos == "body":
+        e = f"{outer}! {{ Some(0i64) |> move |_z: i64| {inner_expr}, Some(1i64) }}"
+        return f"{e}.map(|p| p.0).unwrap()" if t else f"{e}.0.unwrap()"
+    if pos == "cap":
+        e = f"{outer}! {{ Some(0i64) |> {{ let inner = {inner_expr}; move |_z: i64| inner }}, Some(1i64) }}"
+        return f"{e}.map(|p| p.0).unwrap()" if t else f"{e}.0.unwrap()"
+    if pos == "handler":
+        if t:
+            return f"{outer}! {{ Some(0i64), Some(1i64), map => move |_a: i64, _b: i64| {inner_expr} }}.unwrap()"
+        return f"{outer}! {{ Some(0i64), Some(1i64), then => move |_a: Option<i64>, _b: Option<i64>| {inner_expr} }}"
+    raise ValueError(pos)
+
+
+def macro_expr(chain, variant, mchain):
+    """variant: a macro name, or `nest|outer|inner|pos`, or `nest3|a|b|c|pos1|pos2`"""
+    if variant.startswith("nest|"):
+        _, outer, inner, pos = variant.split("|")
+        return nest_expr(outer, pos, simple_expr(chain, inner, mchain))
+    if variant.startswith("nest3|"):
+        _, a, b, c, p1, p2 = variant.split("|")
+        return nest_expr(a, p1, nest_expr(b, p2, simple_expr(chain, c, mchain)))
+    return simple_expr(chain, variant, mchain)
+
+
 def chain_fns(name, chain, variant="join"):
     """returns (macro fn source, twin fn source)"""
     cases = sorted_cases(chain)
@@ -225,13 +265,7 @@ def chain_fns(name, chain, variant="join"):
     mitems, titems = [], []
     mchain = macro_chain(chain, mitems)
     texpr = twin_expr(chain["tree"], "x", site_types(chain), titems)
-    if variant in ("join", "try_join"):
-        call = f"let r{ann} = {variant}! {{ x {mchain} }};"
-    elif variant.startswith("try_"):   # two-branch try variant: the transposed result, projected back on branch 0
-        other = "rt::sem::alt_ok9()" if chain["ty"] == "RI" else "rt::sem::alt9()"
-        call = f"let rr = {variant}! {{ x {mchain}, {other} }}; let r{ann} = rr.map(|p| p.0);"
-    else:   # two-branch thread-spawning variant: branch 0 is the chain
-        call = f"let rr = {variant}! {{ x {mchain}, rt::sem::alt9() }}; let r{ann} = rr.0;"
+    call = f"let r{ann} = {macro_expr(chain, variant, mchain)};"
     hdr = "#[allow(unused_mut, unused_variables, unused_parens, unused_braces, clippy::all)]\n"
     m = (hdr + f"pub fn m_{name}(k: usize) -> Value {{\n" + "".join(f"    {x}\n" for x in mitems) +
          f"    let mut x: {sty} = match k {{ {arms} }};\n    {call}\n    {fin}\n}}\n")
